@@ -48,7 +48,7 @@ HEADER = '#define K %(k)d\n#define KS "ks%(k)d"\n'
 CHILD_HEAD = '''#pragma save_binary
 %(pragma)s
 #include "c17.h"
-inherit "/t/c17p";
+inherit "/%(td)s/c17p";
 class Pt { int x; string s; }
 int cv = %(cv)d;
 '''
@@ -99,7 +99,7 @@ def cases(draw):
     overrides = "".join(n for n in "abcde" if draw(st.booleans()))
     # now and then the child carries one string constant around the 16-bit length the binary format stores (built from adjacent literals)
     bigstr = draw(st.sampled_from([0, 0, 0, 0, 0, 60, 65, 66, 70]))
-    return dict(y=y, ops=ops, save_types=draw(st.booleans()), overrides=overrides, scr=draw(st.integers(0, 10 ** 6)), bigstr=bigstr)
+    return dict(y=y, ops=ops, save_types=draw(st.booleans()), overrides=overrides, scr=draw(st.integers(0, 10 ** 6)), bigstr=bigstr, dir=draw(st.integers(0, 6)))
 
 
 class State:
@@ -124,8 +124,8 @@ def sources(case, s):
         ov += "string bigs() { return\n" + "\n".join('"%s"' % (chr(97 + i % 26) * (1000 if i < kb - 1 else 1000 - 465)) for i in range(kb)) + ";\n}\n"
     else:
         ov += 'string bigs() { return "small"; }\n'
-    child = (CHILD_HEAD % dict(pragma="#pragma save_types" if case["save_types"] else "", cv=s.cv)) + files["r"] + (CHILD_TAIL % dict(cv=s.cv)).replace("OVERRIDES", ov)
-    return {"t/c17c.c": child, "t/c17p.c": PARENT % dict(pv=s.pv), "t/c17.h": HEADER % dict(k=s.k), "t/c17p.h": PHEADER % dict(pk=s.pk)}, names
+    child = (CHILD_HEAD % dict(pragma="#pragma save_types" if case["save_types"] else "", cv=s.cv, td=TD)) + files["r"] + (CHILD_TAIL % dict(cv=s.cv)).replace("OVERRIDES", ov)
+    return {TD + "/c17c.c": child, TD + "/c17p.c": PARENT % dict(pv=s.pv), TD + "/c17.h": HEADER % dict(k=s.k), TD + "/c17p.h": PHEADER % dict(pk=s.pk)}, names
 
 
 def put(workers, s, path, text=None):
@@ -154,12 +154,12 @@ def scrambler(order_seed):
 def run_steps(names):
     steps = [["call", "/master", "set_policy", arg("handler"), arg("trace")], ["call", "/master", "set_policy", arg("save_binary"), arg(1)],
              ["load", "t/c17scr.c"],
-             ["filelog", "on"], ["load", "t/c17c.c"], ["filelog", "dump"], ["filelog", "off"],
-             ["call", "/master", "verif_take_compile_errors"], ["progsum", "t/c17c"], ["progsum", "t/c17p"]]
+             ["filelog", "on"], ["load", TD + "/c17c.c"], ["filelog", "dump"], ["filelog", "off"],
+             ["call", "/master", "verif_take_compile_errors"], ["progsum", TD + "/c17c"], ["progsum", TD + "/c17p"]]
     for vn, sp, ff in names:
         if ff == "r" and sp["inputs"] == "args":
-            steps.append(["call", "t/c17c", "run_args", arg("v_" + vn)])
-    steps += [["call", "t/c17c", "extra"], ["call", "/master", "verif_errors"], ["call", "t/c17c", "fail_here"], ["call", "/master", "verif_errors"]]
+            steps.append(["call", TD + "/c17c", "run_args", arg("v_" + vn)])
+    steps += [["call", TD + "/c17c", "extra"], ["call", "/master", "verif_errors"], ["call", TD + "/c17c", "fail_here"], ["call", "/master", "verif_errors"]]
     return steps
 
 
@@ -182,14 +182,21 @@ def binary_use(res):
     fl = res.step(5, "filelog") or {"log": []}
     opened = [(f, p) for f, p in fl["log"] if "open" in f]
     used = {}
-    for key, stem in (("c", "t/c17c"), ("p", "t/c17p")):
+    for key, stem in (("c", TD + "/c17c"), ("p", TD + "/c17p")):
         b = any(p.endswith(stem + ".b") and "bin/" in p for f, p in opened)
         c = any(p.endswith(stem + ".c") for f, p in opened)
         used[key] = "binary" if (b and not c) else ("source" if c else "none")
     return used, fl["log"]
 
 
+# directory of the child and its parent: program names of ordinary length, and names that make the binary's path 190-330 bytes long
+DIRS = ["t", "t", "t", "t/" + "d" * 150, "t/" + "d" * 183, "t/" + "d" * 100 + "/" + "e" * 120, "t/" + "d" * 200 + "/" + "e" * 100]
+TD = "t"
+
+
 def evaluate_case(ctx, case):
+    global TD
+    TD = DIRS[case.get("dir", 0) % len(DIRS)]
     s = State()
     wdir, rdir = ctx.scratch("w"), ctx.scratch("ref")
     w = Worker(wdir, timeout=30, conf={"SaveBinaryDir": "/bin"})
@@ -197,7 +204,7 @@ def evaluate_case(ctx, case):
     feats = set()
     try:
         src, names = sources(case, s)
-        for path in ("t/c17p.h", "t/c17p.c", "t/c17.h", "t/c17c.c"):
+        for path in (TD + "/c17p.h", TD + "/c17p.c", TD + "/c17.h", TD + "/c17c.c"):
             put([w, ref], s, path, src[path])
         put([w, ref], s, "simul_efun.c")
         w.close(); ref.close()
@@ -214,7 +221,7 @@ def evaluate_case(ctx, case):
                 for ww in (w, ref):
                     ww.write("t/c17scr.c", scrambler(case.get("scr", 0) * 101 + nrun))
                 before = {}
-                for key, p in (("c", "bin/t/c17c.b"), ("p", "bin/t/c17p.b")):
+                for key, p in (("c", "bin/" + TD + "/c17c.b"), ("p", "bin/" + TD + "/c17p.b")):
                     fp = os.path.join(w.mudlib, p)
                     before[key] = os.stat(fp).st_mtime_ns if os.path.exists(fp) else None
                 res = w.run(steps)
@@ -228,7 +235,7 @@ def evaluate_case(ctx, case):
                         return ("crash:" + cr[1][:70], "%s driver\n%s\n%s" % (nm, info, cr[2][:3000])), None
                 used, flog = binary_use(res)
                 # staleness: what the model knows to be newer than each binary
-                deps = {"p": ["t/c17p.c", "t/c17p.h"], "c": ["t/c17c.c", "t/c17.h", "t/c17p.c"]}
+                deps = {"p": [TD + "/c17p.c", TD + "/c17p.h"], "c": [TD + "/c17c.c", TD + "/c17.h", TD + "/c17p.c"]}
                 parent_stale = s.bmt["p"] is None or any(s.mt[d] > s.bmt["p"] for d in deps["p"]) or s.bsimul["p"] != s.mt["simul_efun.c"]
                 for key in ("c", "p"):
                     if used[key] == "binary":
@@ -244,7 +251,7 @@ def evaluate_case(ctx, case):
                             newer.append("the inherited program (recompiled in this very run)")
                         if newer:
                             return ("stale-binary-used", "the binary of %s was used although %r %s newer\n%s" % (
-                                {"c": "t/c17c", "p": "t/c17p"}[key], newer, "is" if len(newer) == 1 else "are", info)), None
+                                {"c": TD + "/c17c", "p": TD + "/c17p"}[key], newer, "is" if len(newer) == 1 else "are", info)), None
                     elif used[key] == "source" and s.bmt[key] is not None:
                         feats.add("recompiled:" + key)
                 # equivalence with the reference compile
@@ -257,7 +264,7 @@ def evaluate_case(ctx, case):
                         return ("binary-differs-from-source:%s:%s" % (lab.split("(")[0].replace(" ", "-"), used["c"]),
                                 "%s differ (with binaries [child from %s, parent from %s], reference compile): %s\n%s" % (lab, used["c"], used["p"], str(d)[:1500], info)), None
                 # binaries written by this run get the run's logical time
-                for key, p in (("c", "bin/t/c17c.b"), ("p", "bin/t/c17p.b")):
+                for key, p in (("c", "bin/" + TD + "/c17c.b"), ("p", "bin/" + TD + "/c17p.b")):
                     fp = os.path.join(w.mudlib, p)
                     if os.path.exists(fp):
                         now = os.stat(fp).st_mtime_ns
@@ -277,7 +284,7 @@ def evaluate_case(ctx, case):
                 else:
                     s.pv += 1
                 src, names = sources(case, s)
-                path = {"edit_src": "t/c17c.c", "edit_inc": "t/c17.h", "edit_parent": "t/c17p.c", "edit_pinc": "t/c17p.h"}[op]
+                path = {"edit_src": TD + "/c17c.c", "edit_inc": TD + "/c17.h", "edit_parent": TD + "/c17p.c", "edit_pinc": TD + "/c17p.h"}[op]
                 put([w, ref], s, path, src[path])
                 feats.add(op)
             elif op == "touch_simul":
@@ -287,7 +294,7 @@ def evaluate_case(ctx, case):
                 ref = Worker(rdir, timeout=30, keep_mudlib=True)
                 feats.add(op)
             else:
-                put([w, ref], s, {"touch_src": "t/c17c.c", "touch_inc": "t/c17.h", "touch_parent": "t/c17p.c", "touch_pinc": "t/c17p.h"}[op])
+                put([w, ref], s, {"touch_src": TD + "/c17c.c", "touch_inc": TD + "/c17.h", "touch_parent": TD + "/c17p.c", "touch_pinc": TD + "/c17p.h"}[op])
                 feats.add(op)
         return None, feats
     finally:
